@@ -12,7 +12,7 @@ COMPONENTS = {
                      "sempler.generators", "numpy"],
             "simulated": ["the name np inside the library's modules (pass-through proxy: every numpy function call is a fault point, seam np.*)", "application threads that make the calls (one call at a time)", "every clock of the standard library (counter)", "OS entropy behind numpy.random.default_rng(None)", "caller-owned buffers and their mutation",
                           "np.linalg.* / np.random.multivariate_normal failure seams", "user callables that fail"],
-            "stub": ["sempler.plot is not exercised (matplotlib absent)"]},
+            "stub": ["matplotlib and networkx.draw / draw_networkx_edge_labels (simulated display that records requests and can fail; sempler/plot.py itself, networkx graph construction and layout are real)"]},
     "C19": {"real": ["sempler.semi (DRFNet, BayesianNetwork, _bootstrap)", "drf.code (bundled wrapper)",
                      "sempler.utils", "pandas", "numpy"],
             "simulated": ["the name np inside the library's modules (pass-through proxy: every numpy function call is a fault point, seam np.*)", "application threads that make the calls (one call at a time)", "every clock of the standard library (counter)", "OS entropy behind numpy.random.default_rng(None)", "time.time on verbose paths"],
